@@ -58,6 +58,11 @@ THEOREMS = [
         "C02_attr_tensor",
         "C02_attr_type",
         "C02_attr_ref",
+        "C02_attr",
+        "C02_node",
+        "C02_graph",
+        "C02_function",
+        "C02_model",
     )
 ]
 ASSUMPTIONS = [
@@ -457,7 +462,7 @@ def _norm_graph(g, extra_referenced=()):
         if name not in in_names and name not in keep:
             # "value-info is added for initializers": from the tensor, or from the graph output entry
             # when the initializer is itself a graph output
-            keep[name] = outs[name] if name in outs else _default_vi(t)
+            keep[name] = _fill_from_tensor(outs[name], t) if name in outs else _default_vi(t)
     vis = [copy.deepcopy(keep[k]) for k in sorted(keep)]
     del g.value_info[:]
     g.value_info.extend(vis)
